@@ -133,6 +133,10 @@ def sup_stream(chk, R, ask, violation, operands, wire_domain, ustr, opd_wire, qu
                 except common.TimeLimit:
                     chk.count('superposition', 'time-limit')
                     continue
+                except AttributeError as e:
+                    # `Expr + Superposition` is not offered: Expr.__add__ does not hand over to Superposition.__radd__
+                    chk.count('superposition', 'not-offered:%s:%s' % (op, str(e)[-30:]))
+                    continue
                 except Exception as e:   # noqa
                     real = ('err', errkind(R, e))
                 chk.count('operator', 'sup ' + op)
@@ -244,7 +248,7 @@ def phasor_stream(chk, R, ask, violation, wire_domain, ustr, opd_wire, cfg_wire,
     for q in ('impedance', 'admittance', 'transfer'):
         for om, tag in ((3, 'n3'), (5, 'n5'), (om_sym, 'sym')):
             try:
-                items.append(('phasor ratio/%s/%s' % (q, tag), E['phasor ratio'][q]('2', omega=om), tag))
+                items.append(('phasor ratio/%s/%s' % (q, tag), E['phasor ratio'][q]('R_0', omega=om), tag))
             except Exception:   # noqa
                 chk.count('phasor', 'cannot-build')
     Y = E['laplace']['admittance']('1/(s+2)')
